@@ -81,3 +81,24 @@ Fixpoint wf_hist (s : spec) (ops : list op) : bool :=
 Definition check_spec (c fill : Z) (ops : list op) : bool :=
   negb (wf_hist (sinit c fill) ops) ||
   eqb_list eqb_out (snd (run (binit c fill) ops)) (snd (spec_run (sinit c fill) ops)).
+
+(* ====================================================================================
+   Additions of the coverage audit (nothing above is changed; no proof depends on what follows).
+
+   samples_to_index / time_to_index called directly after a history: the public index
+   translation of the state the history leads to (reads do not change the state). *)
+Definition check_index (c fill : Z) (ops : list op) (q : Z * Z) : bool :=
+  samples_to_index (fst (run (binit c fill) ops)) (fst q) =? snd q.
+
+(* what the abstract specification says about the same translation: the newest sample sits at
+   the right end of a store of `scap` slots *)
+Definition spec_index (s : spec) (i : Z) : Z := i - slen s + scap s.
+Definition check_spec_index (c fill : Z) (ops : list op) (q : Z * Z) : bool :=
+  negb (wf_hist (sinit c fill) ops) ||
+  (spec_index (fst (spec_run (sinit c fill) ops)) (fst q) =? snd q).
+
+(* one generated case: the history literal appears once; `gots` = the observed outputs per channel,
+   `idx` = (sample, buffer index) pairs observed after the history *)
+Definition check_case (c fill : Z) (ops : list op) (gots : list (list out)) (idx : list (Z * Z)) : bool :=
+  forallb (check_run c fill ops) gots && check_spec c fill ops &&
+  forallb (check_index c fill ops) idx && forallb (check_spec_index c fill ops) idx.
